@@ -250,11 +250,18 @@ def parse_nat_list(out, marker):
 # known findings / violations / evidence
 
 def load_known():
-    path = os.path.join(VERIF, 'known_findings.json')
-    try:
-        return json.load(open(path))['findings']
-    except FileNotFoundError:
-        return []
+    """known_findings.json (+ known_findings.d/*.json fragments, same format)"""
+    out = []
+    paths = [os.path.join(VERIF, 'known_findings.json')]
+    d = os.path.join(VERIF, 'known_findings.d')
+    if os.path.isdir(d):
+        paths += [os.path.join(d, f) for f in sorted(os.listdir(d)) if f.endswith('.json')]
+    for path in paths:
+        try:
+            out.extend(json.load(open(path))['findings'])
+        except FileNotFoundError:
+            pass
+    return out
 
 
 class Check:
